@@ -361,7 +361,7 @@ namespace {
             bool index_access_seen = false;
             for ( auto& ev : sc.log )
                 index_access_seen = index_access_seen || ev.kind == 'l';
-            V_CHECK( index_access_seen, "harness.hook-missing", "no index load went through BLUETOE_VERIF_RING_INDEX: hook 2 (ring.hpp) is not in the tree under test" );
+            V_CHECK( index_access_seen || c.pushes + c.pops == 0, "harness.hook-missing", "no index load went through BLUETOE_VERIF_RING_INDEX: hook 2 (ring.hpp) is not in the tree under test" );
         }
 
         // non-trivial: a context switch between an element copy and the index store of the same operation
@@ -499,30 +499,30 @@ namespace {
             c.S = S; c.model = model; c.first = first; c.rot = rot; c.fill = fill; c.pushes = pu; c.pops = po; c.dfs = 1; c.bound = bound;
             all.push_back( c );
         };
-        const int max_free_all   = static_cast< int >( verif::opt_int( "dfs_free_ops", 2 ) );
-        const int max_free_bound = static_cast< int >( verif::opt_int( "dfs_bounded_ops", 3 ) );
-        const int bound          = static_cast< int >( verif::opt_int( "dfs_bound", 3 ) );
-        const int max_nest       = static_cast< int >( verif::opt_int( "dfs_nest_ops", 4 ) );
+        // nesting (both directions): every capacity, every start state, up to 4+4 operations, no bound.
+        // free interleaving: capacities 1 and 2, every start state; unbounded while pushes+pops <= dfs_free_sum (5),
+        // otherwise bounded: at most 4 preemptions up to 3+3 operations, at most 3 preemptions up to 4+4 operations
+        const int free_sum = static_cast< int >( verif::opt_int( "dfs_free_sum", 5 ) );
+        const int max_ops  = static_cast< int >( verif::opt_int( "dfs_ops", 4 ) );
         for ( int S = 1; S <= 4; ++S )
             for ( int rot = 0; rot <= S; ++rot )  // rot = S+1 is the same index state as rot = 0
                 for ( int fill = 0; fill <= S; ++fill )
                     for ( int first = 0; first <= 1; ++first )
-                    {
-                        for ( int pu = 1; pu <= max_nest; ++pu )
-                            for ( int po = 1; po <= max_nest; ++po )
+                        for ( int pu = 1; pu <= max_ops; ++pu )
+                            for ( int po = 1; po <= max_ops; ++po )
+                            {
                                 add( S, 1, first, rot, fill, pu, po, -1 );
-                        if ( S > 2 )
-                            continue;
-                        for ( int pu = 1; pu <= max_free_bound; ++pu )
-                            for ( int po = 1; po <= max_free_bound; ++po )
-                                if ( pu <= max_free_all && po <= max_free_all )
+                                if ( S > 2 )
+                                    continue;
+                                if ( pu + po <= free_sum )
                                     add( S, 0, first, rot, fill, pu, po, -1 );
                                 else
-                                    add( S, 0, first, rot, fill, pu, po, bound );
-                    }
+                                    add( S, 0, first, rot, fill, pu, po, pu <= 3 && po <= 3 ? 4 : 3 );
+                            }
         // heavy trees first and next to each other, so that dealing them round robin balances the workers
         std::stable_sort( all.begin(), all.end(), []( const Case& a, const Case& b ) {
-            const int wa = ( a.model == 0 ? 100 : 0 ) + a.pushes + a.pops, wb = ( b.model == 0 ? 100 : 0 ) + b.pushes + b.pops;
+            const int wa = ( a.model == 0 ? ( a.bound < 0 ? 200 : 100 ) : 0 ) + a.pushes + a.pops;
+            const int wb = ( b.model == 0 ? ( b.bound < 0 ? 200 : 100 ) : 0 ) + b.pushes + b.pops;
             return wa > wb;
         } );
         return all;
